@@ -1,4 +1,5 @@
 (* LoadInst.v — the loader model over the regenerated tables *)
 From Odf Require Import model.Base model.XmlTree model.Doc model.LoadStyles model.Load gen.GenStyleRefs.
 Definition i_redirected : qname -> qname -> bool := is_redirected scanned_refattrs redirect_excluded redirect_excluded_on.
+Definition i_load_parts := load_parts i_redirected.
 Definition i_load_doc := load_doc i_redirected.
